@@ -15,7 +15,7 @@ na = {
 "C17":"output formatting is a pure function of (result rows, format); the Printer seam has no fault the property speaks about.",
 "C20":"layout/case/clause-order insensitivity is a relation between two parses, pure."
 }
-TRUST = "Trusted base: the libc seam (std reaches the kernel through open64/read/lseek64/close/write/getrandom on x86-64 linux-gnu; self-checked at start-up, exit 2 otherwise), the per-property reference model/oracle in /verif/sim/src/props, the harness driver reproducing src/main.rs' contract with the library (files opened in command-line order, running=true before a query). Sampling, not proof."
+TRUST = "Trusted base: the libc seam (std reaches the kernel through the libc symbols the harness defines, on x86-64 linux-gnu; every one of them is self-checked at start-up with plain std calls, exit 2 otherwise), the per-property reference model/oracle in /verif/sim/src/props, the harness driver reproducing src/main.rs' contract with the library (files opened in command-line order, running=true before a query). Sampling, not proof."
 checks = {
 "C06": ("exploration", "Twin simulated worlds without/with injected non-admitted lines (torn, foreign, NOT NULL-failing, garbage) in the main input, the joined file, across file boundaries and in the follow-mode append stream; outputs must be byte-identical for plain/DISTINCT/LIMIT/aggregate/join statements in batch and follow mode; the admission rule itself is checked on the generated table family where the typed row is known by construction.", "3 (C06)"),
 "C07": ("exploration", "LIMIT n swept over 0..rows+2 per generated case in batch mode (1..3 files, joins with fan-out, DISTINCT, NULL-only rows, aggregates) and follow mode (writer stops after the line producing the n-th row: the follower must return by itself within 64 EOF polls); rows compared with the unlimited statement fed line by line, consumption judged from statistics.total_lines and line-granular fetch counts at the read(2) seam.", "3 (C07)"),
@@ -37,7 +37,7 @@ m = {
    "add_only": True
  },
  "engines": [
-   {"name":"sim","path":"/verif/sim","serves_properties":sorted(checks.keys()),"kind_free_text":"deterministic simulation with fault injection: the unmodified sqlgrep library runs on a fresh thread whose libc boundary (open64/read/lseek64/close/write(1)/getrandom) is owned by a seeded simulator (virtual append-only disk, writer / interrupter / entropy actors); seeded search over schedules and faults, generic minimiser, replay files"}
+   {"name":"sim","path":"/verif/sim","serves_properties":sorted(checks.keys()),"kind_free_text":"deterministic simulation with fault injection: the unmodified sqlgrep library runs on a fresh thread whose libc boundary (open64/read/readv/pread64/lseek64/close/dup/fcntl/write(1)/getrandom/clock_gettime/nanosleep/statx/realpath) is owned by a seeded simulator (virtual append-only disk incl. pipe-like files and file metadata, virtual clock, writer / interrupter / entropy actors, TZ as scenario input); seeded search over schedules and faults, generic minimiser, replay files"}
  ],
  "checks": [],
  "notes": "One integer (VERIF_SEED, default 20260925) decides every generated scenario; running a scenario draws no randomness and reads no clock. Violations are minimised and written to /verif/replays/<file>.json; ./check <ID> --replay <file> re-runs one in a fresh process. known_findings.txt lists genuine defects (known: / fixed:). ./check selftest-determinism re-runs every property at 1/4/16 workers and compares per-case digests. tools/sensitivity.sh applies the kept seeded changes (/verif/seeded) and the reverted fix commits to scratch copies and expects the named check to fail.",
